@@ -152,8 +152,12 @@ func checkC11(c *Ctx) {
 	c.Expect("C11-R11", 2)
 	c.Rule("C11-R12", "the last bytes of the input are not lost: a read that returns bytes together with an error has its bytes queued (the split 'text, then end of input' is one of the read partitions)")
 	c.Expect("C11-R12", 1)
+	c.Rule("C11-R13", "every character the rune parser consumes is delivered, U+FFFD included when it was really sent: the only input consumed without an event is input the decoder substituted U+FFFD for and that is not the charset's encoding of U+FFFD")
+	c.Expect("C11-R13", 1)
 	c.Rule("C11-R10", "the decoder is chosen by the locale's codeset: LC_ALL, LC_CTYPE, LANG in that order; only the bare names C and POSIX mean US-ASCII (C.UTF-8 is UTF-8); no codeset means UTF-8")
 	c.Expect("C11-R10", 3)
+	c.Rule("C11-R14", "a character cut by a read boundary waits for its rest on every path of the collect loop: each cycle progresses, the loop is left only on an empty buffer (or expiry), and the wait-for-more gate counts the 'partial' answer of every parser that is called, the rune parser's included")
+	c.Expect("C11-R14", 8)
 	c.Rule("C11-R9", "the key matcher's 'partial' answer accumulates over the key table (paste brackets split across reads are still recognised)")
 	c.Expect("C11-R9", 1)
 	c.Rule("C11-R5", "an input chunk queued for the parser goroutine owns its backing array (allocated per chunk)")
@@ -180,6 +184,7 @@ func checkC11(c *Ctx) {
 	charsetTableRule(c, p, "C11-R8")
 	checkTimerDiscipline(c, p, "C11-R11")
 	checkReadBytesQueued(c, p, "C11-R12")
+	checkConsumedDelivers(c, p, "C11-R13", func(n string) bool { return n == "parseRune" })
 	c.asRule("C17-R4", "C11-R10", func() { c17Charset(c, p) })
 	for _, pi := range inputParsers(p) {
 		if pi.fn.Name() == "parseFunctionKey" {
@@ -280,6 +285,14 @@ func checkC11(c *Ctx) {
 		}
 		c.Check(ok, "C11-R4", "collect:"+nm+":unconditional", p.pos(collect.Pos()), "called once per iteration, not behind a capability test")
 	}
+	// R14: a character cut by a read boundary waits for its rest — whatever else the loop is doing (a
+	// paste in progress, say): the collect loop's rules of C02 (every cycle progresses, it is left only
+	// on an empty buffer or with every parser's 'partial' answer counted into the wait-for-more gate)
+	c.asRule("C02-R3", "C11-R14", func() {
+		c.asRule("C02-R4", "C11-R14", func() {
+			c.asRule("C02-R8", "C11-R14", func() { c02Collect(c, p, collect, inputParsers(p)) })
+		})
+	})
 	pfc := p.Fn("tcell:(*tScreen).parseFocus")
 	if pfc != nil {
 		ok := false
